@@ -15,3 +15,5 @@ def run(rep, tier):
     kernels.oracle_self_check(rep)
     kernels.run_generators(rep, ["apply_operator_vector", "apply_operator_matrix"])
     B.run_b(rep, morecells.kraus_cells(tier, common.seed()), ["C06"], tier=tier)
+    extra = [c for c in morecells.three_space_cells(tier, common.seed()) + morecells.stale_cache_cells(tier, common.seed()) if c["action"]["kind"] == "kraus"]
+    B.run_b(rep, extra, ["C06"], tier=tier)
